@@ -401,6 +401,9 @@ def run_cell(h, cell, tier, seed, budget_s):
         "nontrivial": 0,
         "notes": [],
     }
+    symx.CROSS.update(n=0, seen=0, agree=0, unknown=0, disagree=0, seconds=0.0, disagreements=[])
+    symx.CROSS["every"] = int(os.environ.get("VF_CROSS_EVERY") or (97 if tier == "thorough" else 53))
+    symx.CROSS["cap"] = int(os.environ.get("VF_CROSS_CAP") or (40 if tier == "thorough" else 3))
     try:
         W = h.make_world("sym", cell)
         nval = [0]
@@ -552,6 +555,10 @@ def run_cell(h, cell, tier, seed, budget_s):
         res["notes"].append("%s: %s" % (type(e).__name__, e))
         res["notes"].append(traceback.format_exc()[-2500:])
     mon.stop()
+    res["cross"] = {k: symx.CROSS[k] for k in ("n", "agree", "unknown", "disagree")}
+    res["cross"]["seconds"] = round(symx.CROSS["seconds"], 2)
+    if symx.CROSS["disagreements"]:
+        res["cross"]["disagreements"] = symx.CROSS["disagreements"][:3]
     res["extra"] = getattr(h, "_extra", {}).get(cell["name"])
     res["functions"] = mon.functions()
     res["wall_s"] = round(time.time() - t0, 2)
@@ -720,10 +727,15 @@ def finish(h, tier, seed, cells, results, wall, only=None):
     problems = []
     violations = []
     known_hits = []
+    cross = {"n": 0, "agree": 0, "unknown": 0, "disagree": 0, "seconds": 0.0}
     for r in results:
         for k in agg:
             agg[k] += r.get(k, 0)
         solver_s += r.get("solver_s", 0.0)
+        for k in cross:
+            cross[k] += (r.get("cross") or {}).get(k, 0)
+        if (r.get("cross") or {}).get("disagree"):
+            problems.append("%s: second solver (cvc5) found %d obligation(s) satisfiable that z3 had proved: %s" % (r["cell"], r["cross"]["disagree"], json.dumps(r["cross"].get("disagreements", [])[:1])[:600]))
         for l, n in r.get("labels", {}).items():
             labels[l] = labels.get(l, 0) + n
         functions.update(r.get("functions", []))
@@ -807,6 +819,8 @@ def finish(h, tier, seed, cells, results, wall, only=None):
             "functions_encoded": sorted(functions),
             "solver_queries": agg["queries"],
             "solver_s": round(solver_s, 2),
+            "second_solver": {"tool": "cvc5 1.0.3 (binary), 5 s per query", "obligations_rechecked": cross["n"], "agree_unsat": cross["agree"], "unknown_or_timeout": cross["unknown"],
+                              "disagree": cross["disagree"], "seconds": round(cross["seconds"], 1), "sampling": "every 97th solver-proved obligation, <= 40 per cell (thorough); every 53rd, <= 3 per cell (quick)"},
             "infeasible_paths": agg["aborted"],
             "known_findings_hit": sorted(seen_known),
             "problems": problems,
